@@ -349,8 +349,10 @@ def sampler_edits(ms, loc, g, out):
         out.extend(sub[:12])
 
 
-def pattern_edits(qs, loc, g, out):
+def pattern_edits(qs, loc, g, out, max_module=0xFFFF):
     rng = g.rng
+    _cell = g.cell
+    g = _GenView(g, lambda: _cell(max_module))
     base = spath(loc)
     if qs["kind"] == "clone":
         for f, mk in (("source", g.u32), ("flags_PFFF", g.u32), ("x", g.i32), ("y", g.i32)):
@@ -392,6 +394,17 @@ def pattern_edits(qs, loc, g, out):
         out.append(Edit(f"{base}/cells", bulk, fill * (len(qs["cells"]) // 8), cls="pattern-bulk"))
 
 
+class _GenView:
+    """gen.Gen with cell() bounded to the module width the enclosing project's version allows (files below 1.9.5.0
+    get the documented legacy fix-up that clears the module high byte)."""
+
+    def __init__(self, g, cell):
+        self._g, self.cell = g, cell
+
+    def __getattr__(self, k):
+        return getattr(self._g, k)
+
+
 def project_edits(ps, loc, g, out, limit=None):
     rng = g.rng
     base = spath(loc)
@@ -417,7 +430,8 @@ def project_edits(ps, loc, g, out, limit=None):
             module_edits(ms, loc + (("modules", i),), g, "project", mine)
     for i, qs in enumerate(ps["patterns"]):
         if qs is not None:
-            pattern_edits(qs, loc + (("patterns", i),), g, mine)
+            pattern_edits(qs, loc + (("patterns", i),), g, mine,
+                          max_module=0xFFFF if tuple(ps["sunvox_version"]) >= (1, 9, 5, 0) else 0xFF)
     if limit is not None and len(mine) > limit:
         mine = rng.sample(mine, limit)
     out.extend(mine)
